@@ -52,6 +52,7 @@ var (
 	nontriv   int64
 	gapAlloc  int64
 	tickRuns  int64
+	staleTS   int64
 	fileRuns  int64
 	filePaths chan string
 	stopProf  func()
@@ -88,12 +89,25 @@ func opWeight(h []regionx.Op) int {
 func hook(search string, realFile bool) func(t *regionx.Transition) {
 	return func(t *regionx.Transition) {
 		coords := t.Cfg.Alpha.Coords
+		if t.Op.K == "W" && t.Op.Size == 0 {
+			// zero-length writes: the statement quantifies over sizes 1..limit; executed, not judged, not expanded
+			rep.Eval(1)
+			rep.Unspec(1)
+			bump("transitions:W-zero-length(unspecified)")
+			return
+		}
 		fs, un := regionx.JudgeStep(t.E, t.Out, t.Pre, t.Shape, coords)
 		rep.Eval(1)
 		rep.Unspec(int64(un))
 		bump("transitions:" + t.Shape)
 		if t.Op.Tick > 0 {
 			atomic.AddInt64(&tickRuns, 1)
+		}
+		if t.Shape == "W-same-count" && t.Out.ClockCalls == 0 && !t.Out.Panicked {
+			// the overwrite kept its sectors and did not touch the timestamp at all (memory and file stay
+			// equal, which is all the statement asks); whether a write must refresh it is not stated
+			atomic.AddInt64(&staleTS, 1)
+			rep.Unspec(1)
 		}
 		if t.Op.K == "W" && t.Op.Size <= regionx.MaxPayload {
 			if len(t.E.Model) >= 2 || t.Shape != "W-fresh" {
@@ -188,6 +202,11 @@ func main() {
 	rep = engine.NewReport("C14")
 	rep.Rule = "explicit-state BFS: every operation of the alphabet (WriteSector over coordinates x sizes, PadToFullSector, re-open; over-limit and zero-length writes as leaves) is applied to every reachable canonical state (allocation layout + length words + occupancy + file length), once from the state's shortest history and once more after reading every coordinate; every WriteSector is re-run with the clock ticking before each of its later clock readings. distinct = (state, operation, context, tick) tuples, each executed once by construction; non-trivial = transitions on a region that holds another chunk or overwrites one"
 	regionx.InstallClock()
+	regionx.StartWatchdog(20*time.Second, func(variant int, hist []regionx.Op) {
+		record("watchdog", variant, hist, []regionx.Finding{{Class: "store/" + entryName(hist) + "/non-termination", Detail: "a single call ran for more than 20 s"}})
+		rep.Cap("aborted by the non-termination watchdog")
+		rep.Finish()
+	})
 	if pf := os.Getenv("VERIF_CPUPROFILE"); pf != "" {
 		f, _ := os.Create(pf)
 		pprof.StartCPUProfile(f)
@@ -256,6 +275,7 @@ func main() {
 	shapeCnt.Range(func(k, v any) bool { rep.Count(k.(string), *v.(*int64)); return true })
 	rep.Count("write_transitions_allocated_into_a_gap", gapAlloc)
 	rep.Count("clock_tick_reruns", tickRuns)
+	rep.Count("same_count_overwrites_that_did_not_read_the_clock(timestamp not refreshed: unspecified)", staleTS)
 	rep.Count("real_file_replays", fileRuns)
 	rep.NonTrivial(nontriv)
 	rep.AddTraces(rep.Evaluations)
@@ -365,4 +385,18 @@ func minTime(a, b time.Time) time.Time {
 		return a
 	}
 	return b
+}
+
+func entryName(h []regionx.Op) string {
+	switch h[len(h)-1].K {
+	case "W":
+		return "WriteSector"
+	case "R":
+		return "ReadSector"
+	case "E":
+		return "ExistSector"
+	case "P":
+		return "PadToFullSector"
+	}
+	return "Load"
 }
